@@ -63,7 +63,7 @@ func runC01(c *Ctx) {
 	r.Rule("R6-getters-verified", "session getters return non-nil only after their verification succeeded", 4)
 	r.Rule("R7-store-validation", "cookie Load / ticket decode succeed only with Validate ok; Validate ok needs checkSignature; checkSignature needs checkHmac; checkHmac needs hmac.Equal", 5)
 	r.Rule("R10-trusted-ip-set", "the trusted-IP set inserts into the same-mask map it looks up (shared with C15.R5); the htpasswd validator answers true only by comparing against the entry it read (shared with C20.R2)", 8)
-	r.Rule("R11-bearer-verifier-options", "issuer verification for bearer-token verifiers is switched off only by the operator's explicit option (shared with C04.R2)", 1)
+	r.Rule("R11-bearer-verifier-options", "issuer verification for bearer-token verifiers is switched off only by the operator's explicit option, in the options and in every oidc.Config built from them (shared with C04.R2)", 4)
 	r.Rule("R12-remote-address", "without a header parser the client address is the host part of RemoteAddr that net.ParseIP accepted; anything else is an error, never a substitute address", 2)
 	r.Rule("R13-bearer-verifier", "a bearer token verifies only with go-oidc ok and the audience membership check on the first configured audience claim present (shared with C04.R1)", 5)
 	r.Rule("R14-basic-credential-split", "a Basic credential is split at the first colon only", 1)
@@ -210,6 +210,7 @@ func runC01(c *Ctx) {
 	runNetSetRule(c, "R10-trusted-ip-set")
 	checkHtpasswdValidate(c, "R10-trusted-ip-set")
 	runIssuerCheckOn(c, "R11-bearer-verifier-options")
+	runOIDCConfigRule(c, "R11-bearer-verifier-options")
 	runRemoteIPRule(c, "R12-remote-address")
 	runVerifierRule(c, "R13-bearer-verifier")
 	runBasicSplitRule(c, "R14-basic-credential-split")
